@@ -63,6 +63,7 @@ type simInline struct {
 }
 
 type simHistOpts struct {
+	Admission         bool // a bounded pool (Config.PoolSize) and low-priority submissions: rejections and evictions happen
 	RoundDuringSubmit bool // sometimes a whole sequencing round runs inside a storage operation of a submission (issuer upload)
 	HTTP         bool // some submissions go through Log.Handler() with real certificate chains, SCTs are verified
 	Existing     bool // the system already holds a log (e.g. a clone of the large pre-built base)
@@ -80,6 +81,9 @@ type simHistOpts struct {
 
 // simHistStats describes what a generated history actually exercised.
 type simHistStats struct {
+	RateLimited int
+	PoolSize    int
+	FatRounds int
 	TwinsWithIssuers int
 	Rounds, Commits, Restarts, Crashes, FaultsFired, ClockAnoms, TileCross, MultiTile, EmptyRounds int
 	FatalRounds, FailedPools, LoadFailures, Acks                                                 int
@@ -191,7 +195,15 @@ func copyMust(m map[string]simAck) map[string]simAck {
 func (h *simHist) submit(ctx context.Context, e *simEntry) *simWaiter {
 	s := h.s
 	if !h.opts.Dedup {
-		return s.submit(ctx, h.in, e, false)
+		// with admission control about a quarter of the entries are low priority (a fixed function of the entry, so that
+		// resubmissions of an entry keep their priority)
+		low := h.opts.Admission && e.ID >= 0 && (uint32(e.ID)*2654435761>>9)%4 == 0
+		wt := s.submit(ctx, h.in, e, low)
+		switch wt.Src {
+		case "ratelimit":
+			h.st.RateLimited++
+		}
+		return wt
 	}
 	if h.pending == nil {
 		h.resetVolatile()
@@ -390,6 +402,13 @@ func (h *simHist) run(t *rapid.T) error {
 			return fmt.Errorf("CreateLog failed on empty stores: %v", err)
 		}
 	}
+	if h.opts.Admission {
+		s.pool = rapid.SampledFrom([]int{0, 0, 0, 2, 5, 9, 260}).Draw(t, "poolSizeLimit")
+		h.st.PoolSize = s.pool
+		if s.pool > 0 {
+			h.st.descf("Config.PoolSize=%d", s.pool)
+		}
+	}
 	in, err := s.load(nil)
 	if err != nil {
 		return fmt.Errorf("LoadLog failed right after CreateLog: %v", err)
@@ -416,6 +435,15 @@ func (h *simHist) run(t *rapid.T) error {
 			}
 		} else {
 			entries = h.genEntries(t, n)
+		}
+		// rarely a round of several MiB: 66-90 entries with 64 KiB certificates (size-dependent limits on reload and recovery)
+		if rapid.IntRange(0, 59).Draw(t, "fatRound") == 41 { // (rapid favours small values: a middle value keeps this rare)
+			for k := rapid.IntRange(66, 90).Draw(t, "fatN"); k > 0; k-- {
+				id := h.nextID
+				h.nextID++
+				entries = append(entries, simMakeEntry(id, (id%2)|((id/2%2)<<2)|(2<<5)))
+			}
+			h.st.FatRounds++
 		}
 		// some duplicates of what was submitted before (same or earlier rounds)
 		if h.nextID > 0 && rapid.IntRange(0, 3).Draw(t, "dups") == 0 {
